@@ -335,6 +335,8 @@ namespace vg
         std::vector<double> z(n, 0.0);
         size_t cls = s.weighted({ 20, 60, 30, 40, 30, 30, 20, 26 });
         int fam = ordinary_only ? 0 : static_cast<int>(s.weighted({ 150, 50, 20, 36 }));
+        if (ordinary_only && cls == 6)
+            cls = 2;  // no raw bit patterns (magnitudes up to 1e150) when ordinary values are asked for
         static const char* names[] = { "const", "palette", "int-noise", "tilt+pits", "rings", "smooth+noise", "raw", "adjacent-depressions" };
         if (info)
         {
